@@ -126,6 +126,9 @@ func (r *Run) Note(format string, a ...any) {
 // Count increments a distribution counter (input kinds, branches hit, error classes …).
 func (r *Run) Count(key string) { r.res.Distribution[key]++ }
 
+// Distribution reads a distribution counter.
+func (r *Run) Distribution(key string) int { return r.res.Distribution[key] }
+
 // CountN adds n to a distribution counter.
 func (r *Run) CountN(key string, n int) { r.res.Distribution[key] += n }
 
